@@ -17,6 +17,16 @@ import (
 
 const verifDir = "/verif"
 
+// outDir is where evidence, replay files and scratch queries go: /verif, unless VERIF_OUT redirects them
+// (used only by tools/seeded_matrix.sh, which checks seeded changes in a scratch worktree via VERIF_REPO
+// without touching the evidence of the real tree).
+func outDir() string {
+	if d := os.Getenv("VERIF_OUT"); d != "" {
+		return d
+	}
+	return verifDir
+}
+
 type knownFinding struct {
 	Fixed      bool   `json:"fixed,omitempty"`
 	Property   string `json:"property"`
@@ -190,10 +200,11 @@ func contractPhase(cr *checkResult, w *symex.World, update bool) {
 	if cr.tier == "thorough" {
 		timeout = 30000
 	}
-	scratch := filepath.Join(verifDir, "scratch", fmt.Sprintf("%s-%d", prop, os.Getpid()))
+	scratch := filepath.Join(outDir(), "scratch", fmt.Sprintf("%s-%d", prop, os.Getpid()))
 	defer os.RemoveAll(scratch)
-	outs := symex.Discharge(obls, symex.SolveOpts{TimeoutMs: timeout, Dir: scratch, Parallel: 6, RequireTwo: cr.tier == "thorough"})
 	known := loadKnownFindings()
+	outs := symex.Discharge(obls, symex.SolveOpts{TimeoutMs: timeout, Dir: scratch, Parallel: 6, RequireTwo: cr.tier == "thorough",
+		ExpectedToFail: func(name string) bool { return matchKnown(known, prop, name) != nil }})
 	baseApprox := map[string]bool{}
 	if b := loadBaseline(prop); b != nil {
 		for _, a := range b.Approx {
@@ -255,7 +266,11 @@ func contractPhase(cr *checkResult, w *symex.World, update bool) {
 		default:
 			// a failed obligation
 			if kf := matchKnown(known, prop, ob.Name); kf != nil {
+				// a recorded defect of the unchanged tree: reported, not counted among the obligations claimed
 				cr.known = append(cr.known, fmt.Sprintf("KNOWN-FINDING: property=%s %s: %s (witness: %s)", prop, ob.Name, kf.Symptom, kf.Witness))
+				cr.obligations--
+				cr.per = cr.per[:len(cr.per)-1]
+				names = names[:len(names)-1]
 				continue
 			}
 			// a failed obligation on a path through code that this tree abstracts *and the unchanged
@@ -326,7 +341,8 @@ func matchKnown(known []knownFinding, prop, obl string) *knownFinding {
 		if k.Fixed || k.Property != prop {
 			continue
 		}
-		if k.Obligation == obl {
+		// a clause checked at several program points yields NAME, NAME#2, NAME#3, ...: the finding names the clause
+		if k.Obligation == obl || strings.HasPrefix(obl, k.Obligation+"#") {
 			return k
 		}
 	}
@@ -343,7 +359,7 @@ func truncateStr(s string, n int) string {
 // writeReplay writes the replay file of a failed obligation and returns the VIOLATION line.
 func writeReplay(cr *checkResult, o *symex.Outcome, note string) string {
 	ob := o.Obl
-	dir := filepath.Join(verifDir, "replays", cr.prop)
+	dir := filepath.Join(outDir(), "replays", cr.prop)
 	os.MkdirAll(dir, 0o755)
 	base := sanitize(ob.Name)
 	path := filepath.Join(dir, base+".txt")
@@ -464,9 +480,9 @@ func (cr *checkResult) finish(levelNote string) int {
 		"wall_s":      time.Since(cr.start).Seconds(),
 		"violations":  len(cr.violations),
 	}
-	os.MkdirAll(filepath.Join(verifDir, "evidence"), 0o755)
+	os.MkdirAll(filepath.Join(outDir(), "evidence"), 0o755)
 	data, _ := json.MarshalIndent(ev, "", " ")
-	os.WriteFile(filepath.Join(verifDir, "evidence", cr.prop+".json"), data, 0o644)
+	os.WriteFile(filepath.Join(outDir(), "evidence", cr.prop+".json"), data, 0o644)
 	fmt.Printf("%s: %d obligations, %d discharged, %d violations, %d undecided, %d known findings, %.1fs\n", cr.prop, cr.obligations, cr.discharged, len(cr.violations), len(cr.undecided), len(cr.known), time.Since(cr.start).Seconds())
 	if len(cr.violations) > 0 {
 		return 1
